@@ -262,11 +262,63 @@ fn run_strong_families(e: &Sexp) -> R<Sexp> {
 
 // ------------------------------------------------------------------ proof outlines
 
+/// the antecedent comparison of an inductive lemma `ante -> F`, possibly under quantifier blocks
+fn antecedent_mut(f: &mut fol::Formula) -> Option<&mut fol::Comparison> {
+    use fol::Formula as F;
+    match f {
+        F::QuantifiedFormula { formula, .. } => antecedent_mut(formula),
+        F::BinaryFormula { connective: fol::BinaryConnective::Implication, lhs, .. } => match lhs.as_mut() {
+            F::AtomicFormula(fol::AtomicFormula::Comparison(c)) => Some(c),
+            _ => None,
+        },
+        _ => None,
+    }
+}
+/// seeded/C13_r6: a third of the inductive lemmas get a comparison CHAIN as antecedent, `N >= n <rel> t [<rel> t]`
+/// (2-3 guards).  anthem refuses every one of them (MalformedInductiveAntecedent: exactly one guard).  The extra
+/// guards range over what makes the class dangerous and what does not: the induction variable itself
+/// (`>= n != N`, `>= n < N`: the chain excludes the base point, base + step no longer give the lemma), `N + 1`,
+/// the bound again (`>= n >= n`), another numeral (`>= n < m`).  Counted as `@inductive-chain-antecedent`,
+/// `@inductive-chain-3-guards` (harness/src/features.rs).
+fn chain_antecedents(rng: &mut Rng, spec: &mut fol::Specification) {
+    use fol::{GeneralTerm as G, IntegerTerm as I, Relation as Rl};
+    for af in spec.formulas.iter_mut() {
+        if af.role != fol::Role::InductiveLemma || !rng.chance(34) {
+            continue;
+        }
+        let Some(c) = antecedent_mut(&mut af.formula) else { continue };
+        c.guards.truncate(1);
+        let Some(first) = c.guards.first().cloned() else { continue };
+        let extra = if rng.chance(70) { 1 } else { 2 };
+        for _ in 0..extra {
+            let relation = match rng.weighted(&[3, 3, 1, 1, 1, 1]) {
+                0 => Rl::NotEqual,
+                1 => Rl::Less,
+                2 => Rl::LessEqual,
+                3 => Rl::Greater,
+                4 => Rl::GreaterEqual,
+                _ => Rl::Equal,
+            };
+            let term = match rng.weighted(&[5, 3, 2, 1]) {
+                0 => c.term.clone(),
+                1 => G::IntegerTerm(I::Numeral(rng.range(-2, 3) as isize)),
+                2 => first.term.clone(),
+                _ => match &c.term {
+                    G::IntegerTerm(t) => G::IntegerTerm(I::BinaryOperation { op: fol::BinaryOperator::Add, lhs: t.clone().into(), rhs: I::Numeral(1).into() }),
+                    t => t.clone(),
+                },
+            };
+            c.guards.push(fol::Guard { relation, term });
+        }
+    }
+}
+
 /// (spec taken_predicates placeholders)
 fn gen_proof_outline(rng: &mut Rng) -> Sexp {
     // sometimes the task also has a renamed private predicate (`q_p`, see ExternalEquivalenceTask)
     let known: &[(&str, usize)] = if rng.chance(75) { &[("in", 1), ("out", 1), ("q", 1), ("r", 0)] } else { &[("in", 1), ("out", 1), ("q", 1), ("r", 0), ("q_p", 1)] };
-    let spec = t::outline(rng, known, 4);
+    let mut spec = t::outline(rng, known, 4);
+    chain_antecedents(rng, &mut spec);
     let mut taken: Vec<fol::Predicate> = known.iter().map(|(p, n)| fol::Predicate { symbol: p.to_string(), arity: *n }).collect();
     if rng.chance(10) {
         taken.push(fol::Predicate { symbol: "aux".into(), arity: 1 });
